@@ -10,7 +10,8 @@ META = {
                    "Compose port with any translation oracle by C02.wellformed_reachable_concrete, and for the Compose with the punctuation "
                    "components by C02.wellformed_reachable_punct, stated over the pair of environments of the full_shape option; for schemas with a key binder "
                    "by C02.wellformed_reachable_keybinder / _keybinder_punct, whatever the binding list and the switches; for schemas with an ascii composer and "
-                   "for every timing of the calls by C02.wellformed_reachable_timed) and every finite list of API ops "
+                   "for every timing of the calls by C02.wellformed_reachable_timed; for schemas with recognizer, matcher, affix_segmentor and ascii_segmentor, "
+                   "whatever the patterns match, by C02.wellformed_reachable_recognizer) and every finite list of API ops "
                    "from a fresh session, the view (input, caret, preedit, menu) is WellFormed; proved by an inductive invariant over "
                    "every context mutator, processor action (default keymaps regenerated from source) and API op. The model is run "
                    "op-for-op against the real librime on synthetic schemas (same C++ context/engine/processor code) and every "
@@ -46,9 +47,25 @@ META = {
                    "(`acSettle`) is applied at the end of each ProcessKey (nested or not) and each API call — exact as long as nothing between the "
                    "update that ends the composition and that point reads ascii_mode or composes again, which holds for the modelled processors (the "
                    "readers, ascii composer and key binder, sit at the head of the chain) and is tied by the differential runs. Not modelled there: "
-                   "ascii_segmentor (not in the synthetic segmentor lists: in ascii_mode the input is still segmented by abc_segmentor), the fallback "
-                   "to default.yaml's ascii_composer section when the schema has none. Processors outside the model "
-                   "(recognizer, chord_composer) are covered only "
+                   "the fallback to default.yaml's ascii_composer section when the schema has none. "
+                   "The recognizer family is inside the model: Recognizer::ProcessKeyEvent and RecognizerPatterns::GetMatch (active input from the "
+                   "confirmed position, a match must reach the end of the input and start at the current end position or at a segment start, std::map "
+                   "order of the patterns, use_space, the accepted characters 0x21..0x7f), Matcher::Proceed (pops segments right of the match, tags the "
+                   "range), AffixSegmentor::Proceed (prefix / suffix / tips / closing_tips / extra_tags; the prefix and suffix segments are born kGuess "
+                   "with a prompt, `phony`, and never get a menu; a lone prefix renames the segment's tag; the rest of a partial selection inherits the "
+                   "tag), AsciiSegmentor::Proceed (reads ascii_mode in the middle of a recomposition: the option travels with the composition as a ghost "
+                   "field written by the one function that stores options). Regular expressions are NOT modelled: in the model a pattern is an arbitrary "
+                   "search function and C02.wellformed_reachable_recognizer quantifies over all of them (composeR_spec: any segmentor order, any "
+                   "patterns, any affix configurations); the DRIVER implements the class `[^] item… [$]`, item = literal or bracket class with nothing / "
+                   "? / * / + (Boost's leftmost, greedy-backtracking semantics incl. ^ and $ at embedded line separators), from whose description both "
+                   "the regex string given to librime and the driver's matcher are generated; a pattern outside the class has no description and the "
+                   "driver refuses the schema. Three synthetic schemas (vs_rec: recognizer before the speller, stock segmentor order with ascii_segmentor, "
+                   "an unanchored reverse-lookup pattern with an affix segmentor, a prefix-letter pattern, a digits pattern; vs_recf: recognizer after the "
+                   "speller, fluid, affix segmentor on the default tag abc, punctuation components, use_space, a pattern anchored at the start only; "
+                   "vs_reca: the stock processor order ascii_composer, recognizer, key_binder, speller, punctuator…) run it op-for-op, the observation "
+                   "line carrying every tag of every segment. Not modelled there: translators of two tags answering for the same segment (merged "
+                   "election; the synthetic schemas keep the tags apart). Processors outside the model "
+                   "(chord_composer) are covered only "
                    "by the context-layer lemmas plus the WellFormed monitor on a stock-component schema (luna_pinyin's component list over "
                    "tiny dictionaries, digit separators at their default; both tiers, no model behind those runs)."),
     "design_ref": "DESIGN.md §2 M-session, §3 C02",
@@ -97,7 +114,7 @@ def run(c):
     cov = vlib.proof_cov(audit, "lake build RimeModel.Props.C02 && #print axioms (all theorems) && forbidden-token scan"
                          + ("" if quick else " && leanchecker"), vlib.STD_TRUSTED + ["translator gen/keymaps.py"])
     cov.update({"evaluations": stats["ops"], "distinct_nontrivial": stats["distinct_nontrivial"],
-                "rule": "seeded random API histories (keys over letters/editing/navigation/selection keys with modifiers, select/highlight/delete by global and on-page index incl. out of range, paging, set_input, set_caret_pos, options, commit, clear, get_commit; on the two schemas with a punctuator also punctuation keys pressed 1-6 times in a row alone / after letters / with the caret moved / with a menu open, followed by confirming, selecting, cancelling and editing keys, options ascii_punct and full_shape, set_input of mixed letters and punctuation; on the two schemas with a key binder also every bound key (sometimes with one modifier bit flipped) in each of the states idle / composing without menu / menu open / paged / caret inside / after a selection / punctuation alternatives, period-comma-letter sequences with modified keys, releases and API calls in between, runs of option bindings; plus a directed grid: every bound key x every state, the ReinterpretPagingKey sequences, every option binding four times in a row, pairs of radio-group bindings; on the two schemas with an ascii composer also switch-key taps (release reported with or without the modifier's own bit), a switch key held across another key / switch key / API call, Caps_Lock with the Lock bit clear or set and letters while it is on, typing / editing / committing in ascii mode, ascii_mode through the API; plus a directed grid: every switch key x every state tapped once and twice and held across a letter, a release after `sleep 700`, every way of ending the inline mode) on %d synthetic schemas x generated candidate tables, corpus first; non-trivial = observation in a composing state; distinct by (schema, full observation line)" % len(sc.SCHEMAS),
+                "rule": "seeded random API histories (keys over letters/editing/navigation/selection keys with modifiers, select/highlight/delete by global and on-page index incl. out of range, paging, set_input, set_caret_pos, options, commit, clear, get_commit; on the two schemas with a punctuator also punctuation keys pressed 1-6 times in a row alone / after letters / with the caret moved / with a menu open, followed by confirming, selecting, cancelling and editing keys, options ascii_punct and full_shape, set_input of mixed letters and punctuation; on the two schemas with a key binder also every bound key (sometimes with one modifier bit flipped) in each of the states idle / composing without menu / menu open / paged / caret inside / after a selection / punctuation alternatives, period-comma-letter sequences with modified keys, releases and API calls in between, runs of option bindings; plus a directed grid: every bound key x every state, the ReinterpretPagingKey sequences, every option binding four times in a row, pairs of radio-group bindings; on the two schemas with an ascii composer also switch-key taps (release reported with or without the modifier's own bit), a switch key held across another key / switch key / API call, Caps_Lock with the Lock bit clear or set and letters while it is on, typing / editing / committing in ascii mode, ascii_mode through the API; plus a directed grid: every switch key x every state tapped once and twice and held across a letter, a release after `sleep 700`, every way of ending the inline mode; on the three schemas of the recognizer family also words around a pattern / affix (typed key by key or set through the API, sometimes with one character changed, with line separators around them), BackSpace across suffix / code / prefix, the caret moved into the prefix, whole and partial selections inside the code segment, ascii_mode switched with the composition open; plus a directed grid: every word of the schema's list x every boundary move) on %d synthetic schemas x generated candidate tables, corpus first; non-trivial = observation in a composing state; distinct by (schema, full observation line)" % len(sc.SCHEMAS),
                 "samples": stats["samples"], "histories": stats["histories"], "op_kind_distribution": stats["kinds"],
                 "observations_with_menu": stats["menus"], "observations_composing": stats["composing"],
                 "commits_read": stats["commits"], "model_impl_disagreements": stats["diffs"],
